@@ -372,7 +372,53 @@ def r5_subclass_fallback(ctx):
     )
 
 
+def r6_dependent_pairs(ctx):
+    """Two value-dependent types: ordered like their bounds; on equal bounds by the mirrored `<` of the types."""
+    dm = A.dependent_meta(ctx.repo)
+    m = dm.methods.get("__type_order__")
+    ctx.require(m is not None, f"{dm.key} lost __type_order__")
+    ctx.touch(m)
+    rv = recv_name(m)
+    other = [p for p in m.params if p != rv][0]
+    br = None
+    for st in m.node.body:
+        if isinstance(st, ast.If) and isinstance(st.test, ast.Call) and call_name(st.test) == "isinstance" and dotted(st.test.args[0]) == other and dotted(st.test.args[1]) == dm.name:
+            br = st
+    ctx.require(br is not None, f"{m.key}: no branch for a dependent operand")
+    # every path of that branch returns (no fall-through into the plain-type logic)
+    from ..cfg import CFG
+
+    fake = ast.FunctionDef(name="b", args=m.node.args, body=br.body, decorator_list=[], lineno=br.lineno)
+    c = CFG(fake)
+    falls = any(n.kind != "return" and n.kind != "raise" for n in [c.nodes[p] for p in c.pred[c.exit]])
+    bounds = [s for s in br.body if isinstance(s, ast.Assign) and isinstance(s.value, ast.Call) and call_name(s.value) == "typeorder"]
+    in_order = bool(bounds) and [src(a) for a in bounds[0].value.args] == [f"{rv}.bound", f"{other}.bound"]
+    var = dotted(bounds[0].targets[0]) if bounds else None
+    same_if = [s for s in br.body if isinstance(s, ast.If) and var and any(isinstance(x, ast.Name) and x.id == var for x in ast.walk(s.test)) and "SAME" in src(s.test)]
+    returns_order = False
+    mirrored = False
+    if same_if:
+        s = same_if[0]
+        returns_order = any(isinstance(x, ast.Return) and dotted(x.value) == var for x in s.orelse)
+        got = {}
+        from .c14 import flatten_chain
+
+        for test, body, node in flatten_chain(s.body):
+            r = [x for x in body if isinstance(x, ast.Return)]
+            if r:
+                got[src(test) if test is not None else "else"] = src(r[0].value)
+        mirrored = got.get(f"{rv} < {other}") == "Order.LESS" and got.get(f"{other} < {rv}") == "Order.MORE" and got.get("else") == "Order.NONE"
+    ctx.ob(
+        f"{m.key}:dependent-vs-dependent",
+        m.loc(br),
+        "two value-dependent types are ordered like their bounds (compared in order); on equal bounds by the mirrored `<`; the branch always answers itself",
+        in_order and returns_order and mirrored and not falls,
+        "two dependent types with differently ordered bounds no longer answer with the order of their bounds (or the branch falls through into the plain-type logic, which can only say LESS or NONE): typeorder(a, b) and typeorder(b, a) stop being mirror images",
+    )
+
+
 RULES = [
+    ("C12.R6", "P1", r6_dependent_pairs, "dependent vs dependent: ordered by bounds, mirrored"),
     ("C12.R5", "P1", r5_subclass_fallback, "plain classes are ordered by issubclass"),
     ("C12.R1", "P1", r1_swap_parity, "swap parity"),
     ("C12.R2", "P1", r2_reflexive_first, "reflexive shortcut first"),
